@@ -37,6 +37,8 @@ def instances(tier):
         if p["call"] in ("ac_temp", "zone_temp"):
             p = dict(p, grid=100)        # a finer grid than C04's 0.05 degC: 0.01 degC, ties included
         out.append(p)
+    for g in (4, 5):
+        out.append({"kind": "timer_sequence", "gen": g, "call": "timer_sequence", "vary": "config"})
     return out
 
 
@@ -48,7 +50,82 @@ def _bit(bits, n):
     return ((bits >> n) & 1) == 1
 
 
+def _timer_sequence(ctx, p):
+    """Two quick-timer calls in a row, with or without a timer report from the console in between: in each frame the
+    timer that is not being changed is exactly as the console last reported it (not as this client last sent it)."""
+    import datetime
+    from sx import shims
+    from .common import ApiRig, Gen
+    from .console import Installation
+    A = apicmd.api()
+    g = Gen(p["gen"])
+    inst = Installation.simple(g.n, n_acs=1, zones_per_ac=1)
+    tm = (ctx.bits("on_dis", 1), ctx.int("on_h", 0, 23), ctx.int("on_m", 0, 59), ctx.bits("off_dis", 1), ctx.int("off_h", 0, 23), ctx.int("off_m", 0, 59))
+    inst.timers[0] = tm
+    types = list(A.AcTimerType)
+    first = types[ctx.choice("first", 2)]
+    second = types[ctx.choice("second", 2)]
+    op1_set = bool(ctx.choice("op1", 2))
+    op2_set = bool(ctx.choice("op2", 2))
+    report_between = bool(ctx.choice("report_between", 2))
+    h1, m1 = ctx.int("h1", 0, 23), ctx.int("m1", 0, 59)
+    h2, m2 = ctx.int("h2", 0, 23), ctx.int("m2", 0, 59)
+    mk = (lambda h, m: shims.SxTime(h, m) if ctx.symbolic else datetime.time(h, m))
+    with ApiRig(ctx, g, inst) as rig:
+        rig.start()
+        rig.run(1.0)
+        ctx.check(rig.init_result is True, "accepted_writes_one_frame", detail="handshake failed")
+        con = rig.console
+        ac = rig.ac(0)
+        res = {}
+
+        def call(tt, is_set, h, m, key):
+            async def go():
+                try:
+                    if is_set:
+                        await ac.set_quick_timer(tt, mk(h, m))
+                    else:
+                        await ac.clear_quick_timer(tt)
+                    res[key] = None
+                except Exception as e:  # noqa: BLE001
+                    res[key] = type(e).__name__
+            return go
+
+        def apply(cur, tt, is_set, h, m):
+            new = (0, h, m) if is_set else (1, 0, 0)
+            return (new + cur[3:6]) if tt is A.AcTimerType.ON_TIMER else (cur[0:3] + new)
+
+        n0 = len(con.requests)
+        rig.spawn(call(first, op1_set, h1, m1, 1)())
+        rig.run(2.0)
+        reported = tm
+        if report_between:
+            reported = apply(tm, first, op1_set, h1, m1)       # the console reports the timers as they are after the first call
+            inst.timers[0] = reported
+            con.push(con.timer_status_frame(pid=0x61))
+            rig.run(3.0)
+        n1 = len(con.requests)
+        rig.spawn(call(second, op2_set, h2, m2, 2)())
+        rig.run(4.0)
+        f1 = [fr for _, k, fr in con.requests[n0:n1] if k == "timer_ctrl"]
+        f2 = [fr for _, k, fr in con.requests[n1:] if k == "timer_ctrl"]
+        detail = {"first": first.name, "second": second.name, "set": [op1_set, op2_set], "report_between": report_between, "results": dict(res)}
+        ctx.check(res.get(1, "x") is None and res.get(2, "x") is None and len(f1) == 1 and len(f2) == 1, "accepted_writes_one_frame", detail=dict(detail, frames=[len(f1), len(f2)]))
+        for fr, base, tt in ((f1[0], tm, first), (f2[0], reported, second)):
+            data = fr["data"]
+            rec = data[0:4] if g.n == 4 else data[9:13]
+            if tt is A.AcTimerType.ON_TIMER:
+                other = bytes_eq(rec[2:4], [(base[3] << 7) | base[4], base[5]])
+            else:
+                other = bytes_eq(rec[0:2], [(base[0] << 7) | base[1], base[2]])
+            ctx.check(other, "other_timer_untouched", detail=dict(detail, frame=("first" if fr is f1[0] else "second")))
+        for lab in expect_labels("quick"):
+            ctx.reach(lab)
+
+
 def run(ctx, p):
+    if p.get("kind") == "timer_sequence":
+        return _timer_sequence(ctx, p)
     A = apicmd.api()
     out = apicmd.scenario(ctx, p)
     env, gen, call = out["env"], out["gen"], p["call"]
@@ -85,6 +162,11 @@ def run(ctx, p):
         return
     ctx.check(sym_not(unsupported), "refusal_iff_unsupported", detail=dict(detail, why="accepted an unsupported request"))
     ctx.reach("refused_writes_nothing")
+    if p["vary"] == "beyond_field" and len(out["frames"]) == 0:
+        # beyond what the AT5 field can carry (documented limits 10.0 .. 35.0): the property names no behaviour; see C04
+        for lab in ("accepted_writes_one_frame", "setpoint_rounded_and_clamped", "other_timer_untouched"):
+            ctx.reach(lab)
+        return
     ctx.check(len(out["frames"]) == 1, "accepted_writes_one_frame", detail=dict(detail, frames=len(out["frames"])))
     ctx.check(not out["failures"], "accepted_writes_one_frame", detail="unhandled exception")
     data = out["frames"][0]["data"]
